@@ -238,6 +238,14 @@ def r10_5(ctx: Ctx) -> None:
         files = sorted(ctx.repo.modules)
     builders = {"CompoundLocation", "build_location_from_others"}
     found = 0
+    from ..flow import key_function
+
+    def by_start(rel_: str, func_: ast.AST, key_: Optional[ast.AST]) -> bool:
+        """ is the sort key the start coordinate (lambda or named key function)? """
+        if key_ is None:
+            return False
+        resolved = key_function(ctx.repo, rel_, func_, key_)
+        return resolved is not None and txt(resolved[1]) == f"{resolved[0]}.start"
     for rel in files:
         for qual, func in _walk_functions(ctx.repo.modules[rel].tree, ""):
             sorted_lists: Dict[str, ast.AST] = {}
@@ -252,12 +260,12 @@ def r10_5(ctx: Ctx) -> None:
                 elif isinstance(node, ast.For) and isinstance(node.iter, ast.Call) and call_name(node.iter) == "sorted":
                     key = kwarg(node.iter, "key")
                     # lists appended to inside a loop over a coordinate-sorted sequence inherit the order
-                    if key is not None and isinstance(key, ast.Lambda) and txt(key.body).endswith(".start"):
+                    if by_start(rel, func, key):
                         for call in calls(node):
                             if last_attr(call) == "append" and isinstance(call.func.value, ast.Name):  # type: ignore[attr-defined]
                                 sorted_lists[call.func.value.id] = node  # type: ignore[attr-defined]
                     continue
-                if key is not None and target and isinstance(key, ast.Lambda) and txt(key.body).endswith(".start"):
+                if target and by_start(rel, func, key):
                     sorted_lists[target] = node
             if not sorted_lists:
                 continue
